@@ -63,7 +63,7 @@ def run(res, tier):
     res.rule("C17.preserved-results: what the exports return after a rebuild is what rebuild() gathered and scattered back - per-particle arrays by original index then value, per-leaf rows by value then position, results scattered from the gathered array (rule C13.2)")
     import c13 as _c13
     _sub13 = tbf.Result("C13")
-    _c13.run(_sub13, "quick")
+    tbf.donor_run(res, _c13, _sub13)
     tbf.reexport(res, _sub13, ("C13.2", "C13.6"), "C17.preserved-results", min_instances=2)
     # the target/source tree only forwards
     for q, want in (("TbfTreeTsm::getAllParticlesDataSource", "treeSource.getAllParticlesData"), ("TbfTreeTsm::getAllParticlesDataTarget", "treeTarget.getAllParticlesData"),
